@@ -8,6 +8,7 @@ import (
 	"go/types"
 	"math"
 	"math/big"
+	"strconv"
 	"strings"
 )
 
@@ -814,6 +815,52 @@ func (vc *VC) floatUn(op string, v Term) Term {
 	return App(SF64, op, v)
 }
 
+// degOf: how many input-derived factors a float term is a product of. Literals have degree 0, anything not
+// built by the arithmetic tracked here (an ordinate read from memory, a call result) has degree 1, a sum or
+// difference the larger degree of its operands, a product or quotient the sum. With ordinates that are zero or
+// of magnitude within [1e-100, 1e100] a product of degree <= 2 of ordinates and their differences neither
+// overflows nor underflows, which is what lets the real-number model stand for the float64 sign tests; a
+// product of higher degree can underflow to zero inside that domain. `maxdegree N` on a contract makes every
+// reachable float product of degree > N a failed obligation (range#product-degree).
+func (vc *VC) degOf(t Term) int {
+	if d, ok := vc.deg[t.S]; ok {
+		return d
+	}
+	if _, err := strconv.ParseFloat(strings.Trim(t.S, "()- "), 64); err == nil {
+		return 0
+	}
+	if strings.HasPrefix(t.S, "G!") {
+		// package-level constant or variable (an epsilon, a scale): not an input-derived factor
+		return 0
+	}
+	if strings.HasPrefix(t.S, "(- ") && !strings.Contains(t.S[3:], " ") {
+		return vc.degOf(Term{t.S[3 : len(t.S)-1], t.Sort})
+	}
+	return 1
+}
+
+func (vc *VC) trackDegree(st *State, op token.Token, a, b, r Term, pos token.Pos) {
+	if vc.Mode == "opaque" || vc.maxDeg == 0 {
+		return
+	}
+	if vc.deg == nil {
+		vc.deg = map[string]int{}
+	}
+	da, db := vc.degOf(a), vc.degOf(b)
+	switch op {
+	case token.ADD, token.SUB:
+		if db > da {
+			da = db
+		}
+		vc.deg[r.S] = da
+	case token.MUL, token.QUO:
+		vc.deg[r.S] = da + db
+		if da+db > vc.maxDeg {
+			vc.oblige(st, "range", "product-degree", pos, False, fmt.Sprintf("float product of %d input-derived factors (contract allows %d): it can underflow or overflow for ordinates within the stated range, where the real-number reading of the sign tests no longer holds", da+db, vc.maxDeg))
+		}
+	}
+}
+
 func (vc *VC) floatBin(op token.Token, a, b Term) Term {
 	if vc.Mode != "opaque" {
 		switch op {
@@ -993,7 +1040,9 @@ func (vc *VC) binop(st *State, op token.Token, l, r Val, lt, rt, resT types.Type
 		if op == token.QUO && vc.Mode != "opaque" {
 			vc.oblige(st, "safety", "fdiv", pos, Not(Eq(b, Term{"0.0", SReal})), "floating-point division by zero (NaN/Inf source)")
 		}
-		return vc.floatBin(op, a, b)
+		r := vc.floatBin(op, a, b)
+		vc.trackDegree(st, op, a, b, r, pos)
+		return r
 	}
 	if isString(opT) {
 		switch op {
